@@ -7,6 +7,7 @@ import TeosVerif.Driver.OutageDrv
 import TeosVerif.Driver.ClientDrv
 import TeosVerif.Driver.PluginDrv
 import TeosVerif.Driver.HttpDrv
+import TeosVerif.Driver.WireDrv
 /- The model driver: one operation per input line, one canonical output line per operation. -/
 open Teos Teos.Drv
 
@@ -34,6 +35,7 @@ def step (st : DState) (line : String) : DState × String :=
   | ["ht", "unavailable", v] => ({ st with unavailable := v = "1" }, "ok")
   | "ht" :: "req" :: rest => (st, htReq st.unavailable rest)
   | "hx" :: _ => (st, "-")
+  | "wi" :: rest => (st, wiStep rest)
   | "tw" :: rest =>
     -- with bitcoind flagged unreachable every public request is refused before it is looked at
     if st.unavailable && (rest.head? = some "reg" || rest.head? = some "add" || rest.head? = some "get" || rest.head? = some "sub")
